@@ -65,18 +65,6 @@ theorem search_cases (ls : List α) (l : α) :
   · have hget : ls[k]? = none := List.getElem?_eq_none (by omega)
     simp [hget, hk]
 
-theorem at_length2_whole (c : Curve α (V2 α)) (l : α) : GenRs.at_length2 c l = c.atLength l := by
-  unfold GenRs.at_length2 Curve.atLength
-  rw [search_cases]
-  by_cases hg : (decide (l < 0) || decide (c.length < l)) = true
-  · simp only [hg, if_true]
-  · simp only [hg, if_false, Bool.false_eq_true]
-    unfold Curve.len
-    by_cases hx : (decide (countLt c.lengths l < c.lengths.length) && !decide (l < c.lengths.getD (countLt c.lengths l) default)) = true
-    · simp only [hx, if_true]
-    · simp only [hx, if_false, Bool.false_eq_true]
-      rfl
-
 theorem at_length3_whole (c : Curve α (V3 α)) (l : α) : GenRs.at_length3 c l = c.atLength l := by
   unfold GenRs.at_length3 Curve.atLength
   rw [search_cases]
@@ -89,11 +77,77 @@ theorem at_length3_whole (c : Curve α (V3 α)) (l : α) : GenRs.at_length3 c l 
     · simp only [hx, if_false, Bool.false_eq_true]
       rfl
 
-theorem at_fraction2_whole (c : Curve α (V2 α)) (f : α) : GenRs.at_fraction2 c f = c.atFraction f := by
-  unfold GenRs.at_fraction2 Curve.atFraction
-  exact at_length2_whole c _
-
 theorem at_fraction3_whole (c : Curve α (V3 α)) (f : α) : GenRs.at_fraction3 c f = c.atFraction f := by
   unfold GenRs.at_fraction3 Curve.atFraction
   exact at_length3_whole c _
+
+/-! ### edge and vertex directions, the whole of `at_vertex` -/
+
+theorem dir_of_edge2_eq (c : Curve α (V2 α)) (i : Nat) : GenRs.dir_of_edge2 c i = c.dirOfEdge i := rfl
+
+/-- `Curve2::dir_of_vertex` (a 2-D curve blends the two adjacent edge directions; a closed one does so
+    across its seam): the Rust tests `index == len - 1`, the model `index + 1 == len` — the same on a
+    curve with at least one vertex -/
+theorem dir_of_vertex2_eq (c : Curve α (V2 α)) (i : Nat) (hb : c.blend = true) (hn : 0 < c.count) :
+    GenRs.dir_of_vertex2 c i = c.dirOfVertex i := by
+  unfold GenRs.dir_of_vertex2 Curve.dirOfVertex
+  unfold Curve.count at *
+  simp only [dir_of_edge2_eq, hb, if_true]
+  have hlast : decide (i = c.verts.length - 1) = (i + 1 == c.verts.length) := by
+    by_cases h : i = c.verts.length - 1
+    · have h1 : i + 1 = c.verts.length := by omega
+      rw [decide_eq_true h]
+      exact (beq_iff_eq.mpr h1).symm
+    · have h1 : ¬ i + 1 = c.verts.length := by omega
+      rw [decide_eq_false h]
+      exact (beq_eq_false_iff_ne.mpr h1).symm
+  have hfirst : decide (i = 0) = (i == 0) := by
+    by_cases h : i = 0 <;> simp [h]
+  simp only [hlast, hfirst]
+  rfl
+
+theorem at_vertex2_eq (c : Curve α (V2 α)) (i : Nat) (hb : c.blend = true) (hn : 0 < c.count) :
+    GenRs.at_vertex2 c i = c.atVertex i := by
+  unfold GenRs.at_vertex2 Curve.atVertex
+  rw [dir_of_vertex2_eq c i hb hn]
+  unfold Curve.count at *
+  by_cases h : i + 1 = c.verts.length
+  · have h2 : i = c.verts.length - 1 := by omega
+    simp only [if_pos h2]
+    rw [if_pos (by simpa using h)]
+  · have h2 : ¬ i = c.verts.length - 1 := by omega
+    simp only [if_neg h2]
+    rw [if_neg (by simpa using h)]
+
+/-- `Curve3::dir_of_vertex` (a 3-D curve uses the next edge; the last vertex the previous one) -/
+theorem dir_of_vertex3_eq (c : Curve α (V3 α)) (i : Nat) (hb : c.blend = false) (hn : 0 < c.count) :
+    GenRs.dir_of_vertex3 c i = c.dirOfVertex i := by
+  unfold GenRs.dir_of_vertex3 Curve.dirOfVertex
+  unfold Curve.count at *
+  simp only [hb, Bool.false_eq_true, if_false]
+  by_cases h : i + 1 = c.verts.length
+  · have h2 : i = c.verts.length - 1 := by omega
+    rw [if_pos h2, if_pos (by simpa using h)]
+  · have h2 : ¬ i = c.verts.length - 1 := by omega
+    rw [if_neg h2, if_neg (by simpa using h)]
+
+/-- the whole of `Curve2::at_length` (its exact-vertex arm goes through the regenerated `at_vertex`) -/
+theorem at_length2_whole (c : Curve α (V2 α)) (l : α) (hb : c.blend = true) (hn : 0 < c.count) :
+    GenRs.at_length2 c l = c.atLength l := by
+  unfold GenRs.at_length2 Curve.atLength
+  rw [search_cases]
+  by_cases hg : (decide (l < 0) || decide (c.length < l)) = true
+  · simp only [hg, if_true]
+  · simp only [hg, if_false, Bool.false_eq_true]
+    unfold Curve.len
+    by_cases hx : (decide (countLt c.lengths l < c.lengths.length) && !decide (l < c.lengths.getD (countLt c.lengths l) default)) = true
+    · simp only [hx, if_true]
+      rw [at_vertex2_eq c _ hb hn]
+    · simp only [hx, if_false, Bool.false_eq_true]
+      rfl
+
+theorem at_fraction2_whole (c : Curve α (V2 α)) (f : α) (hb : c.blend = true) (hn : 0 < c.count) :
+    GenRs.at_fraction2 c f = c.atFraction f := by
+  unfold GenRs.at_fraction2 Curve.atFraction
+  exact at_length2_whole c _ hb hn
 end C01T
